@@ -19,6 +19,7 @@ type tbSchema struct {
 	nDecl int
 	feats map[string]int // constructs used (histogram keys)
 	loose int            // declarations drawn without the cell capacity budget
+	grid  bool           // the enumerated grid of widths (seed 0)
 }
 
 var tbPrefixes = []string{"Ab", "Pool", "Msg", "Xq", "Nft", "W5", "Dex", "Jetton", "Storm", "Z"}
@@ -464,8 +465,57 @@ func (g *tbGen) rebuild() {
 
 func tbHeld() bool { return os.Getenv("VERIF_C09_TLB_HELD") != "" }
 
-// drawTLBSchema draws a schema of 1..25 declarations.
+// gridTLBSchema is the one enumerated case (seed 0): every width of every sized built-in of the subset,
+// packed into declarations that fit a cell.
+func gridTLBSchema() *tbSchema {
+	var list []*tlbrun.Type
+	for n := 1; n <= 64; n++ {
+		list = append(list, &tlbrun.Type{Kind: tlbrun.KUint, N: n}, &tlbrun.Type{Kind: tlbrun.KInt, N: n})
+	}
+	for _, n := range []int{128, 256, 257} {
+		list = append(list, &tlbrun.Type{Kind: tlbrun.KUint, N: n}, &tlbrun.Type{Kind: tlbrun.KInt, N: n})
+	}
+	for n := 1; n <= 32; n++ {
+		list = append(list, &tlbrun.Type{Kind: tlbrun.KNat, N: n}, &tlbrun.Type{Kind: tlbrun.KVarUint, N: n})
+	}
+	for _, n := range tbBitsSizes {
+		list = append(list, &tlbrun.Type{Kind: tlbrun.KBits, N: n})
+	}
+	for _, n := range []int{1, 7, 8, 16, 23, 32, 64, 128, 256} {
+		list = append(list, &tlbrun.Type{Kind: tlbrun.KDict, N: n, Args: []*tlbrun.Type{{Kind: tlbrun.KUint, N: 1 + n%64}}})
+	}
+	list = append(list, &tlbrun.Type{Kind: tlbrun.KNat32}, &tlbrun.Type{Kind: tlbrun.KBool}, &tlbrun.Type{Kind: tlbrun.KCoins, Name: "Coins"},
+		&tlbrun.Type{Kind: tlbrun.KCoins, Name: "Grams"}, &tlbrun.Type{Kind: tlbrun.KAddr})
+	empty, _ := tlbrun.NewSchema(nil)
+	var types []*tlbrun.TypeDef
+	var cur *tlbrun.Ctor
+	bits, refs := 0, 0
+	for i, t := range list {
+		sz := empty.SizeOf(t)
+		if cur == nil || bits+sz.MaxBits > 1023 || refs+sz.MaxRefs > 4 {
+			name := fmt.Sprintf("Grid%d", len(types))
+			cur = &tlbrun.Ctor{Name: fmt.Sprintf("grid%d", len(types)), Tag: "#_", Result: name}
+			types = append(types, &tlbrun.TypeDef{Name: name, Ctors: []*tlbrun.Ctor{cur}})
+			bits, refs = 0, 0
+		}
+		cur.Fields = append(cur.Fields, &tlbrun.Field{Name: fmt.Sprintf("f_%d", i), Type: t})
+		bits += sz.MaxBits
+		refs += sz.MaxRefs
+	}
+	sch, err := tlbrun.NewSchema(types)
+	if err != nil {
+		panic("c09: grid schema: " + err.Error())
+	}
+	out := &tbSchema{seed: 0, sch: sch, text: sch.String(), nDecl: len(types), feats: map[string]int{}, grid: true}
+	classifyTLB(sch, out.feats)
+	return out
+}
+
+// drawTLBSchema draws a schema of 1..25 declarations. Seed 0 is the enumerated grid of widths.
 func drawTLBSchema(seed uint64) *tbSchema {
+	if seed == 0 {
+		return gridTLBSchema()
+	}
 	out := &tbSchema{seed: seed, feats: map[string]int{}}
 	g := &tbGen{r: tlbrun.NewRand(seed), out: out, depth: map[string]int{}, held: tbHeld(), loose: map[string]bool{}}
 	g.rebuild()
